@@ -4,7 +4,7 @@
 name=$1; file=$2; pat=$3; rep=$4; shift 4
 d=$(mktemp -d /tmp/sa-mr-XXXXXX)
 cp -r /repo/adb_shell $d/
-(cd $d && patch -p1 -s < /verif/refactorings/$name/patch.diff)
+[ "$name" = "-" ] || (cd $d && patch -p1 -s < /verif/refactorings/$name/patch.diff)
 /venv/bin/python - "$d/adb_shell/$file" "$pat" "$rep" <<'PY'
 import re, sys
 p, pat, rep = sys.argv[1:4]
